@@ -8,3 +8,7 @@ import Rpki.Props.C02
 #print axioms Rpki.Props.C02.aspaVerify_iff
 #print axioms Rpki.Props.C02.roaProcess_iff
 #print axioms Rpki.Props.C02.roa_within_issuer
+#print axioms Rpki.Props.C02.attrs_any_order
+#print axioms Rpki.Props.C02.attrs_missing_rejected
+#print axioms Rpki.Props.C02.attrs_duplicate_rejected
+#print axioms Rpki.Props.C02.attrs_too_long_rejected
